@@ -60,3 +60,6 @@ package structs
 //@   only uint64
 //@   safety allocmax=4294967296
 //@   ensures implies(isnil(err), n == 8 + 8*len(v))
+// what is rebuilt has the length the stream announces (its first word), whatever the receiver held
+// before: a longer receiver is cut down, so the bytes consumed are the bytes that were written
+//@   ensures implies(isnil(err), len(v) == lastword(r))
